@@ -1,6 +1,6 @@
 /-
   Theorems about the reservation / barrier protocol model `Res` (Model/Res.lean): properties C06
-  (safety half) and C09, and the bounds on `curProcessing`.  The inductive invariants are in
+  (safety half) and C09, the bounds on `curProcessing`, and the limit re-check of reserve().  The inductive invariants are in
   Proofs/ResLemmas.lean (`reach_inv`).
 
   History: for the first version of the model four of these theorems (`stopped_quiet`,
@@ -37,7 +37,7 @@ theorem reach_of_runProj {α : Type} {f : State → α} {c : Nat} {evs : List Ev
     PauseAndWait locks, stores paused, evaluates its barrier condition, unlocks, returns nil. -/
 def exFrozen : List Ev := [
   .call 0 .bind, .lockL 0, .ldStatusL 0 initiated, .stStatus 0 running, .unlockL 0, .ret 0 .bind true,
-  .ldCurD 5 0, .ldConcD 5 2, .casCur 5 0 1 true, .ldStatusD 5 running, .send 5,
+  .ldCurD 5 0, .ldConcD 5 2, .casCur 5 0 1 true, .ldStatusD 5 running, .ldConcR 5 2, .send 5,
   .enter 7 0, .ldCurAny 9 1, .exit 7 0, .relR 7 0,
   .call 1 .pauseAndWait, .lockL 1, .ldStatusL 1 running, .stStatus 1 paused,
   .ldStatusB 1 paused, .ldCurB 1 0, .unlockL 1, .ret 1 .pauseAndWait true]
@@ -45,7 +45,7 @@ def exFrozen : List Ev := [
 /-- as `exFrozen`, but the call is Stop and it stores `stopped` after the barrier -/
 def exStopped : List Ev := [
   .call 0 .bind, .lockL 0, .ldStatusL 0 initiated, .stStatus 0 running, .unlockL 0, .ret 0 .bind true,
-  .ldCurD 5 0, .ldConcD 5 2, .casCur 5 0 1 true, .ldStatusD 5 running, .send 5,
+  .ldCurD 5 0, .ldConcD 5 2, .casCur 5 0 1 true, .ldStatusD 5 running, .ldConcR 5 2, .send 5,
   .enter 7 0, .exit 7 0, .relR 7 0,
   .call 1 .stop, .lockL 1, .ldStatusL 1 running, .stStatus 1 paused,
   .ldStatusB 1 paused, .ldCurB 1 0, .stStatus 1 stopped, .unlockL 1, .ret 1 .stop true]
@@ -54,10 +54,10 @@ def exStopped : List Ev := [
     starts: budget 0 -/
 def exBudget : List Ev := [
   .call 0 .bind, .lockL 0, .ldStatusL 0 initiated, .stStatus 0 running, .unlockL 0, .ret 0 .bind true,
-  .ldCurD 5 0, .ldConcD 5 2, .casCur 5 0 1 true, .ldStatusD 5 running,
+  .ldCurD 5 0, .ldConcD 5 2, .casCur 5 0 1 true, .ldStatusD 5 running, .ldConcR 5 2,
   .call 1 .pause, .lockL 1, .ldStatusL 1 running, .stStatus 1 paused, .unlockL 1, .ret 1 .pause true]
 
-example : exFrozen.length = 23 := rfl
+example : exFrozen.length = 24 := rfl
 example : runProj (fun s => (s.frozen, s.ws, s.cur, s.starts, s.nExec)) 2 exFrozen = some (true, paused, 0, 1, 0) := by decide
 example : runProj (fun s => (s.frozen, s.ws, s.cur)) 2 exStopped = some (true, stopped, 0) := by decide
 example : runProj (fun s => (s.budget, s.nHold, s.ws)) 2 exBudget = some (some 1, 1, paused) := by decide
@@ -65,6 +65,30 @@ example : runProj (fun s => (s.budget, s.nHold, s.handed, s.nExec)) 2 (exBudget 
 /-- a dispatcher that reserves after the Pause must give the slot back: phase `mustRelease`, not `holding` -/
 example : runProj (fun s => (s.budget, s.ph 6, s.nHold, s.nRes)) 2
     (exBudget ++ [.ldCurD 6 1, .ldConcD 6 2, .casCur 6 1 2 true, .ldStatusD 6 paused]) = some (some 1, .mustRelease, 1, 1) := by decide
+
+/-- the Pause returns while the dispatcher is between the two re-checks (phase `checked`): it is
+    counted in the budget, because it may still hand its job over — the limit re-check passes -/
+def exBudgetChecked : List Ev := [
+  .call 0 .bind, .lockL 0, .ldStatusL 0 initiated, .stStatus 0 running, .unlockL 0, .ret 0 .bind true,
+  .ldCurD 5 0, .ldConcD 5 2, .casCur 5 0 1 true, .ldStatusD 5 running,
+  .call 1 .pause, .lockL 1, .ldStatusL 1 running, .stStatus 1 paused, .unlockL 1, .ret 1 .pause true]
+
+example : runProj (fun s => (s.budget, s.ph 5, s.tk 5, s.nHold, s.nRes)) 2 exBudgetChecked = some (some 1, .checked, 1, 1, 0) := by decide
+example : runProj (fun s => (s.budget, s.ph 5, s.nHold, s.handed, s.ws)) 2 (exBudgetChecked ++ [.ldConcR 5 2, .send 5])
+    = some (some 1, .idle, 0, 1, paused) := by decide
+
+/-- the limit is lowered between the first load of the limit and the CAS: goroutine 6 takes the
+    value 2 while the limit is 1; the limit re-check sends it to `mustRelease`, it cannot send -/
+def exLimit : List Ev := [
+  .call 0 .bind, .lockL 0, .ldStatusL 0 initiated, .stStatus 0 running, .unlockL 0, .ret 0 .bind true,
+  .ldCurD 5 0, .ldConcD 5 2, .casCur 5 0 1 true, .ldStatusD 5 running, .ldConcR 5 2,
+  .ldCurD 6 1, .ldConcD 6 2, .stConc 3 1, .casCur 6 1 2 true, .ldStatusD 6 running, .ldConcR 6 1]
+
+example : runProj (fun s => (s.ph 6, s.tk 6, s.conc, s.cur, s.nHold, s.nRes)) 2 exLimit = some (.mustRelease, 2, 1, 2, 1, 1) := by decide
+example : runProj (·.cur) 2 (exLimit ++ [.send 6]) = none := by decide
+example : runProj (fun s => (s.ph 6, s.cur, s.nRes)) 2 (exLimit ++ [.relD 6 1]) = some (.idle, 1, 0) := by decide
+/-- the limit re-check cannot be skipped: no hand-over from phase `checked` -/
+example : runProj (·.cur) 2 (exLimit.take 16 ++ [.send 6]) = none := by decide
 
 /-! ## Counting -/
 
@@ -97,7 +121,7 @@ theorem read_cur_le_maxConc {s s' : State} {g v : Nat} (r : Reach s)
 example : ∃ s, Reach s ∧ s.nExec = 1 ∧ s.cur = 1 ∧ s.maxConc = 2 ∧
     ∃ s', step s (.ldCurAny 9 1) = .ok s' :=
   have h : runProj (fun s => (s.nExec, s.cur, s.maxConc, (step s (.ldCurAny 9 1)).toOption.isSome)) 2
-      (exFrozen.take 12) = some (1, 1, 2, true) := by decide
+      (exFrozen.take 13) = some (1, 1, 2, true) := by decide
   by
     obtain ⟨s, r, _, hs⟩ := reach_of_runProj h
     simp only [Prod.mk.injEq] at hs
@@ -106,6 +130,52 @@ example : ∃ s, Reach s ∧ s.nExec = 1 ∧ s.cur = 1 ∧ s.maxConc = 2 ∧
     cases hst : step s (.ldCurAny 9 1) with
     | ok s' => exact ⟨s', rfl⟩
     | error m => simp [hst, Except.toOption] at h4
+
+/-! ## The limit re-check of reserve() -/
+
+/-- a dispatcher only keeps its slot if the value it took is within the limit in effect at the re-check -/
+theorem holding_within_limit {s s' : State} {g v : Nat} (h : step s (.ldConcR g v) = .ok s')
+    (hh : s'.ph g = .holding) : s.tk g ≤ s.conc := by
+  res_step_cases h
+  all_goals (simp at *)
+  all_goals (try omega)
+
+/-- … and has to give it back otherwise -/
+theorem recheck_gives_back {s s' : State} {g v : Nat} (h : step s (.ldConcR g v) = .ok s')
+    (hg : s.conc < s.tk g) : s'.ph g = .mustRelease := by
+  res_step_cases h
+  all_goals (simp at *)
+  all_goals (try omega)
+
+/-- the value taken by a dispatcher that holds a slot (any phase but `idle`) is at least 1 and at most
+    the largest limit ever configured -/
+theorem taken_bounds {s : State} (hr : Reach s) (g : Nat) (hp : s.ph g ≠ .idle) :
+    1 ≤ s.tk g ∧ s.tk g ≤ s.maxConc := reach_tk hr g hp
+
+theorem taken_le_cur {s : State} (hr : Reach s) (g : Nat) (hp : s.ph g = .checked ∨ s.ph g = .reserved) :
+    1 ≤ s.tk g :=
+  (taken_bounds hr g (by rcases hp with hp | hp <;> simp [hp])).1
+
+/-- a dispatcher that passes the limit re-check took a value between 1 and the current limit -/
+theorem holding_taken_le {s s' : State} {g v : Nat} (r : Reach s) (h : step s (.ldConcR g v) = .ok s')
+    (hh : s'.ph g = .holding) : 1 ≤ s.tk g ∧ s.tk g ≤ s.conc ∧ s.conc ≤ s.maxConc := by
+  have hc := holding_within_limit h hh
+  have hm := conc_le_maxConc r
+  have hp : s.ph g ≠ .idle := by
+    res_step_cases h
+    all_goals (simp at *)
+    all_goals (simp [*])
+  exact ⟨(taken_bounds r g hp).1, hc, hm⟩
+
+example : ∃ s s', Reach s ∧ step s (.ldConcR 6 1) = .ok s' ∧ s.conc < s.tk 6 := by
+  have h : runProj (fun s => ((step s (.ldConcR 6 1)).toOption.isSome, s.conc, s.tk 6)) 2
+      (exLimit.take 16) = some (true, 1, 2) := by decide
+  obtain ⟨s, r, _, hs⟩ := reach_of_runProj h
+  simp only [Prod.mk.injEq] at hs
+  obtain ⟨h1, h2, h3⟩ := hs
+  cases hst : step s (.ldConcR 6 1) with
+  | ok s' => exact ⟨s, s', r, hst, by omega⟩
+  | error m => simp [hst, Except.toOption] at h1
 
 /-! ## Quiet windows -/
 
@@ -161,7 +231,7 @@ theorem barrier_return_exact {s s' : State} {g : Nat} {a : Api} (r : Reach s) (h
 example : ∃ s s', Reach s ∧ Api.pauseAndWait.isBarrier = true ∧
     step s (.ret 1 .pauseAndWait true) = .ok s' ∧ s.dirty 1 = false := by
   have h : runProj (fun s => ((step s (.ret 1 .pauseAndWait true)).toOption.isSome, s.dirty 1)) 2
-      (exFrozen.take 22) = some (true, false) := by decide
+      (exFrozen.take 23) = some (true, false) := by decide
   obtain ⟨s, r, _, hs⟩ := reach_of_runProj h
   simp only [Prod.mk.injEq] at hs
   cases hst : step s (.ret 1 .pauseAndWait true) with
@@ -205,7 +275,7 @@ example : ∃ s, Reach s ∧ s.budget = some 0 ∧ s.nExec = 1 := by
 
 example : ∃ s s', Reach s ∧ step s (.ret 1 .pause true) = .ok s' ∧ s'.budget = some 1 ∧ s.budget = none := by
   have h : runProj (fun s => ((step s (.ret 1 .pause true)).toOption.map (·.budget), s.budget)) 2
-      (exBudget.take 15) = some (some (some 1), none) := by decide
+      (exBudget.take 16) = some (some (some 1), none) := by decide
   obtain ⟨s, r, _, hs⟩ := reach_of_runProj h
   simp only [Prod.mk.injEq] at hs
   cases hst : step s (.ret 1 .pause true) with
@@ -232,7 +302,7 @@ def cexFrozen : List Ev := [
   .call 2 .pauseAndWait, .lockL 2, .ldCurB 2 0, .unlockL 2, .ret 2 .pauseAndWait true]
 
 def cexFrozenStart : List Ev :=
-  [.ldCurD 5 0, .ldConcD 5 2, .casCur 5 0 1 true, .ldStatusD 5 running, .send 5, .enter 7 0]
+  [.ldCurD 5 0, .ldConcD 5 2, .casCur 5 0 1 true, .ldStatusD 5 running, .ldConcR 5 2, .send 5, .enter 7 0]
 
 /-- stale `bst` inside one Stop call: status loaded before the lock, Resume in between -/
 def cexStopped1 : List Ev := [
@@ -241,7 +311,7 @@ def cexStopped1 : List Ev := [
   .call 2 .stop, .ldStatusB 2 paused,
   .call 0 .resume, .lockL 0, .stStatus 0 running, .unlockL 0, .ret 0 .resume true,
   .lockL 2, .ldCurB 2 0,
-  .ldCurD 5 0, .ldConcD 5 2, .casCur 5 0 1 true, .ldStatusD 5 running,
+  .ldCurD 5 0, .ldConcD 5 2, .casCur 5 0 1 true, .ldStatusD 5 running, .ldConcR 5 2,
   .stStatus 2 stopped]
 
 /-- stale `checked`: computed in a first critical section, used in a second one -/
@@ -249,7 +319,7 @@ def cexStopped2 : List Ev := [
   .call 0 .bind, .lockL 0, .stStatus 0 running, .unlockL 0, .ret 0 .bind true,
   .call 2 .stop, .lockL 2, .stStatus 2 paused, .ldStatusB 2 paused, .ldCurB 2 0, .unlockL 2,
   .call 0 .resume, .lockL 0, .stStatus 0 running, .unlockL 0, .ret 0 .resume true,
-  .ldCurD 5 0, .ldConcD 5 2, .casCur 5 0 1 true, .ldStatusD 5 running,
+  .ldCurD 5 0, .ldConcD 5 2, .casCur 5 0 1 true, .ldStatusD 5 running, .ldConcR 5 2,
   .lockL 2, .stStatus 2 stopped]
 
 /-- accepted up to and including `lockL 2`, rejected at `ldCurB 2 0` ("cur loaded before status") -/
@@ -268,8 +338,8 @@ example : runProj (·.ws) 2 (cexStopped1.take 18) = some running := by decide
 example : runProj (·.ws) 2 (cexStopped1.take 19) = none := by decide
 example : runProj (·.ws) 2 cexStopped1 = none := by decide
 
-/-- accepted up to the second `lockL 2`, which clears `checked 2`; the store of `stopped` is rejected -/
-example : runProj (fun s => (s.ws, s.nHold, s.checked 2)) 2 (cexStopped2.take 21) = some (running, 1, false) := by decide
+/-- accepted up to the second `lockL 2` (event 22), which clears `checked 2`; the store of `stopped` is rejected -/
+example : runProj (fun s => (s.ws, s.nHold, s.checked 2)) 2 (cexStopped2.take 22) = some (running, 1, false) := by decide
 example : runProj (·.ws) 2 cexStopped2 = none := by decide
 
 end Res
@@ -289,4 +359,9 @@ open VarmqVerif.Res
 #print axioms budget_bound
 #print axioms no_start_when_budget_zero
 #print axioms budget_le_maxConc
+#print axioms holding_within_limit
+#print axioms recheck_gives_back
+#print axioms taken_le_cur
+#print axioms taken_bounds
+#print axioms holding_taken_le
 end Axioms
